@@ -237,6 +237,26 @@ def cmdLifecycle (m : List (String × String)) : Option String := do
   | "recover" => pure s!"unwiped={if seeded then Lifecycle.unwiped (Lifecycle.recoverBufs fixed t κ) else 0}"
   | _ => none
 
+def cmdFields (m : List (String × String)) : Option String := do
+  let bs ← hexToBytes (← get m "hex")
+  match Codec.decode bs with
+  | none => pure "err"
+  | some p =>
+    let sc (x : Nat) : String := bytesToHex (natToLe 32 x)
+    pure s!"ok tag={p.tag} d1={",".intercalate (p.d1.map sc)} a={bytesToHex p.a} a1={bytesToHex p.a1} b={bytesToHex p.b} r1={sc p.r1} s1={sc p.s1} li={",".intercalate (p.li.map bytesToHex)} ri={",".intercalate (p.ri.map bytesToHex)}"
+
+def cmdEncode (m : List (String × String)) : Option String := do
+  let tag ← (← get m "tag").toNat?
+  let d1 ← (splitOn' (← get m "d1") ",").mapM (fun h => (hexToBytes h).map leNat)
+  let a ← hexToBytes (← get m "a")
+  let a1 ← hexToBytes (← get m "a1")
+  let b ← hexToBytes (← get m "b")
+  let r1 ← (hexToBytes (← get m "r1")).map leNat
+  let s1 ← (hexToBytes (← get m "s1")).map leNat
+  let li ← (splitOn' (← get m "li") ",").mapM hexToBytes
+  let ri ← (splitOn' (← get m "ri") ",").mapM hexToBytes
+  pure s!"hex={bytesToHex (Codec.encode { tag := tag, d1 := d1, a := a, a1 := a1, b := b, r1 := r1, s1 := s1, li := li, ri := ri })}"
+
 def okerr (b : Bool) : String := if b then "ok" else "err"
 
 def cmdCtor (m : List (String × String)) : Option String := do
@@ -281,6 +301,8 @@ def step (line : String) : String :=
       | "witnessbytes" => cmdWitnessbytes m
       | "rnghist" => cmdRnghist m
       | "lifecycle" => cmdLifecycle m
+      | "fields" => cmdFields m
+      | "encode" => cmdEncode m
       | _ => none
     match r with
     | some s => s
@@ -291,6 +313,7 @@ partial def loop (h : IO.FS.Stream) (out : IO.FS.Stream) : IO Unit := do
   let line ← h.getLine
   if line.isEmpty then return ()
   out.putStrLn (step line)
+  out.flush
   loop h out
 
 def main : IO Unit := do
